@@ -87,6 +87,20 @@ theorem xml_descend_links (x : Bytes) (n : Node) (h : decode x = .node n) :
       ∀ e, Within e (survivor (descend n)) → ∀ d ∈ children e, d.parent = some e.id :=
   ⟨descend_mem_preorder n, xml_survivor_links x n (descend n) h (descend_mem_preorder n)⟩
 
+/-- a child `c` of any element `e` of a returned tree that is taken out of `e` by `remove(int)`,
+    `remove(const Xml&)`, `clear()` or `put(value)` (`detached`: its parent pointer is cleared when it leaves,
+    commit dcdfbd7 — before it `c.parent()` kept naming `e`, and read freed memory once `e` was destroyed) has a
+    null parent, also after everything else is released, and every parent link below it still holds -/
+theorem xml_detached_child_links (x : Bytes) (n e c : Node) (h : decode x = .node n) (he : e ∈ preorder n)
+    (hc : c ∈ children e) :
+    (detached c).parent = none ∧ (survivor (detached c)).parent = none ∧
+      ∀ e', Within e' (detached c) → ∀ d ∈ children e', d.parent = some e'.id := by
+  refine ⟨parent_clearParent c, parent_clearParent _, links_of_linksOK ?_⟩
+  have hw : Within c n := Within.child (mem_preorder_within n e he) hc
+  show linksOK c.clearParent = true
+  rw [linksOK_clearParent]
+  exact within_links hw (decode_links true x n h)
+
 /-- the identities of the nodes of a returned tree (`ids`: the node, then its descendants in document
     order) are pairwise distinct — so "parent = identity of the container" in `xml_parent_links` names
     exactly one node of the tree -/
